@@ -23,6 +23,9 @@ abbrev Store (κ ν : Type) := List (κ × ν)
 def get {κ ν} [BEq κ] (m : Store κ ν) (k : κ) : Option ν := m.lookup k
 def del {κ ν} [BEq κ] (m : Store κ ν) (k : κ) : Store κ ν := m.filter (fun p => !(p.1 == k))
 def put {κ ν} [BEq κ] (m : Store κ ν) (k : κ) (v : ν) : Store κ ν := (k, v) :: del m k
+/-- what an iterator over the store yields: the entries `get` sees (an association list may carry shadowed entries; a KV
+store iterator yields every key once with its current value) -/
+def visible {κ ν} [BEq κ] [BEq ν] (m : Store κ ν) : Store κ ν := m.filter (fun p => get m p.1 == some p.2)
 def ins {κ} [BEq κ] (s : List κ) (k : κ) : List κ := if s.contains k then s else k :: s
 def rem {κ} [BEq κ] (s : List κ) (k : κ) : List κ := s.filter (fun x => !(x == k))
 
@@ -120,7 +123,7 @@ def sendCoins (b : Store (Addr × Denom) Nat) (x y : Addr) (d : Denom) (n : Nat)
 
 /-- all balances of an address, as (denom, amount) -/
 def balancesOf (b : Store (Addr × Denom) Nat) (a : Addr) : List (Denom × Nat) :=
-  (b.filter (fun p => p.1.1 == a)).map (fun p => (p.1.2, p.2))
+  ((visible b).filter (fun p => p.1.1 == a)).map (fun p => (p.1.2, p.2))
 
 /-! ## distribution hooks (F1 bookkeeping reduced to period counter + starting info; amounts are inputs) -/
 def periodOf (s : State) (v : Val) : Nat := (get s.period v).getD 0
@@ -384,9 +387,9 @@ def moveRed (c : Cfg) (frm to : Addr) (s : State) (p : (Addr × Val × Val) × L
 
 /-- `DistrStakingMigrate.Execute` -/
 def stakingExecute (c : Cfg) (s : State) (frm to : Addr) : State :=
-  let s1 := (s.dels.filter (fun p => p.1.1 == frm)).foldl (moveDelegation c frm to) s
-  let s2 := (s1.ubds.filter (fun p => p.1.1 == frm)).foldl (moveUbd c frm to) s1
-  (s2.reds.filter (fun p => p.1.1 == frm)).foldl (moveRed c frm to) s2
+  let s1 := ((visible s.dels).filter (fun p => p.1.1 == frm)).foldl (moveDelegation c frm to) s
+  let s2 := ((visible s1.ubds).filter (fun p => p.1.1 == frm)).foldl (moveUbd c frm to) s1
+  ((visible s2.reds).filter (fun p => p.1.1 == frm)).foldl (moveRed c frm to) s2
 
 def setRecord (s : State) (frm to : Addr) : State :=
   { s with recs := put (put s.recs frm (true, to)) to (false, frm) }
